@@ -799,8 +799,15 @@ def _desugar_factors_with_weights(design: List[Factor],
             if isinstance(f, DerivedFactor):
                 # Uses `replacements`:
                 f.desugar_for_weights(replacements)
+        # A rewritten derived factor is its own pair of replacements, so it must
+        # be listed only once in the new design.
+        new_design = cast(List[Factor], [])
+        for f in design:
+            for r in replacements.get(f, [f]):
+                if not any(r is other for other in new_design):
+                    new_design.append(r)
         # Returned `replacements` is also used for constraint desugaring
-        return (list(chain.from_iterable([replacements.get(f, [f]) for f in design])),
+        return (new_design,
                 [[replacements.get(f, [f, f])[1] for f in c] for c in crossings],
                 replacements)
 
